@@ -29,7 +29,7 @@ ASSUMPTIONS = ['the dialogue child is in raw mode, so the tty neither echoes nor
                'a violation is reported only if it reproduces in two further serial runs of the same dialogue',
                'pauses are either <= T/6 or >= 2.5 T (T = 1.0 s) so that which side of the timeout they fall on does not depend on load']
 REQUIRED = ['runs', 'flood_occurrences_checked', 'responses_checked', 'output_bytes_compared', 'callback_invocations', 'eof_event_runs', 'timeout_event_runs',
-            'exit_status_checks', 'list_form', 'dict_form']
+            'exit_status_checks', 'list_form', 'dict_form', 'overlapping_patterns_wider', 'overlapping_patterns_shorter_first']
 
 DIALOGUE = os.path.join(PEERS, 'dialogue.py')
 T = 1.0
@@ -108,6 +108,19 @@ def gen_case(rng):
     Tc = 20 if big else T
     if tail == 'eof' and timeout_event is None and not split and rng.random() < 0.25:
         Tc = rng.choice([-1, None])          # "the default" / "no time limit": no pause in this dialogue comes near
+    if overlap is None and not split and names and rng.random() < 0.3 and not (stop_at is not None and len(names) == 1):
+        # a wider pattern listed further down whose occurrence starts earlier in the stream and ends later than the
+        # occurrence of the prompt pattern listed before it: the event that comes first in the stream answers.
+        # (the prompt is one small write with nothing pending before it, so it is searched in one piece)
+        j = rng.choice([x for x in range(len(names)) if x != stop_at])
+        k = next(i for i, s in enumerate(steps) if s[0] == 'print' and bytes.fromhex(s[1]) == names[j].encode())
+        steps[k] = ['print', ('W-' + names[j] + '+').encode().hex()]
+        while k > 0 and steps[k - 1][0] in ('print', 'pause'):
+            del steps[k - 1]
+            k -= 1
+        steps.insert(k, ['pause', 0.05])
+        overlap = {'pat': 'W-' + names[j] + '\\+', 'kind': 'str', 'resp': 'w%d\n' % j, 'before': rng.randint(j + 1, len(names)),
+                   'wider': j}
     return {'dup': rng.choice([0, 0, 1, 2, 3]), 'enc': enc, 'steps': steps, 'events': events, 'overlap': overlap,
             'form': rng.choice(['dict', 'list']),
             'eof_event': eof_event, 'timeout_event': timeout_event, 'code': code, 'stop_at': stop_at,
@@ -190,6 +203,7 @@ def one(case, acc):
             pairs.append((S(r'<<\d{5}>>'), rec))
         if case['overlap']:
             ov = case['overlap']
+            acc.count('overlapping_patterns_wider' if ov.get('wider') is not None else 'overlapping_patterns_shorter_first')
             pairs.insert(ov['before'], (S(ov['pat']), S(ov['resp'])))
         if case['eof_event']:
             acc.count('eof_event_runs')
@@ -312,8 +326,8 @@ def one(case, acc):
         for i, ev in enumerate(case['events']):
             if case['stop_at'] is not None and i >= case['stop_at']:
                 break
-            ov = case['overlap']
-            if ov and ov['before'] <= i and ov['pat'] == ev['pat'][:-1]:
+            if overlap_answers(case, i):
+                ov = case['overlap']
                 want.append(S(ov['resp']) if enc is None else ov['resp'].encode('utf-8'))
             else:
                 want.append(expected_resp[i] if enc is None else ev['resp'].encode('utf-8'))
@@ -332,8 +346,7 @@ def one(case, acc):
         for i, ev in enumerate(case['events']):
             if case['stop_at'] is not None and i > case['stop_at']:
                 break
-            ov = case['overlap']
-            answered_by_overlap = bool(ov and ov['before'] <= i and ov['pat'] == ev['pat'][:-1])
+            answered_by_overlap = overlap_answers(case, i)
             if not answered_by_overlap and ev['kind'] != 'str':
                 exp_counts.append(i)
             nprompt_events = i + 1
@@ -359,6 +372,15 @@ def one(case, acc):
                         for k, v2 in case.items()})
     finally:
         shutil.rmtree(tmp, ignore_errors=True)
+
+
+def overlap_answers(case, i):
+    ov = case['overlap']
+    if not ov:
+        return False
+    if ov.get('wider') is not None:
+        return ov['wider'] == i
+    return ov['before'] <= i and ov['pat'] == case['events'][i]['pat'][:-1]
 
 
 def classify_output(got, want):
